@@ -101,8 +101,15 @@ func codec(c *hx.Ctx) {
 // ---- workbooks ------------------------------------------------------------------
 
 type lcell struct {
-	kind  string // shared, rich, inline, str, bool, err, num, formula
+	kind  string // how the displayed value is stored: shared, rich, inline, str, bool, err, num, formula (= no cached value)
 	value string // displayed value
+	// formula: the text of the cell's <f> element ("" = a typed-in cell). The
+	// t attribute says how the cached result in <v> is stored, the <f> element
+	// says where it came from: the two are independent, so a cell of every
+	// stored kind may be a formula cell, and it displays its cached result
+	// exactly like a typed-in cell of that kind (=B2>C2 shows TRUE, =1/0 shows
+	// #DIV/0!, =A1&B1 shows the string).
+	formula string
 }
 
 type lsheet struct {
@@ -123,6 +130,29 @@ var words = []string{"alpha", "β-beta", "x", "Q3 total", "a|b", "<tag>", "\"q\"
 var blankish = []string{" ", "  ", "\u00a0", "\u3000", " \u00a0 ", "\u2003"}
 
 var kinds = []string{"shared", "rich", "inline", "str", "bool", "err", "num", "formula"}
+
+// formulas: <f> texts, some with characters the XML writer has to escape.
+var formulas = []string{"SUM(A1:A2)", "B2>C2", "A1<=B1", "NOT(A1)", "1/0", "A1&B1", "CONCAT(A1,B1)", "IF(A1>0,\"y\",\"n\")", "NOW()", "VLOOKUP(A1,B:C,2,FALSE)", "Sheet2!A1", "ISBLANK(ZZ200)"}
+
+// withFormula makes the cell a formula cell (cached result unchanged) with
+// the probability that fits its stored kind: t="str" exists for formula
+// results, so it nearly always has one; every other kind has one in a third
+// of the cells; "formula" (nothing cached) always.
+func withFormula(r *hx.Rng, lc lcell) lcell {
+	var has bool
+	switch lc.kind {
+	case "formula":
+		has = true
+	case "str":
+		has = r.Chance(4, 5)
+	default:
+		has = r.Chance(1, 3)
+	}
+	if has {
+		lc.formula = hx.Pick(r, formulas)
+	}
+	return lc
+}
 var stringKinds = []string{"shared", "rich", "inline", "str"}
 
 // genCell draws one cell of any kind with its displayed value.
@@ -148,22 +178,24 @@ func genCell(r *hx.Rng) lcell {
 			v += " " + hx.Pick(r, words)
 		}
 	}
-	return lcell{k, v}
+	return withFormula(r, lcell{kind: k, value: v})
 }
 
 // genSlight draws a valued cell that is easy to mistake for "nothing there":
 // white space only (every string kind), zero, FALSE, one character.
 func genSlight(r *hx.Rng) lcell {
+	var lc lcell
 	switch r.Intn(6) {
 	case 0:
-		return lcell{"num", "0"}
+		lc = lcell{kind: "num", value: "0"}
 	case 1:
-		return lcell{"bool", "FALSE"}
+		lc = lcell{kind: "bool", value: "FALSE"}
 	case 2:
-		return lcell{hx.Pick(r, stringKinds), hx.Pick(r, []string{"x", "-", ".", "0"})}
+		lc = lcell{kind: hx.Pick(r, stringKinds), value: hx.Pick(r, []string{"x", "-", ".", "0"})}
 	default:
-		return lcell{hx.Pick(r, stringKinds), hx.Pick(r, blankish)}
+		lc = lcell{kind: hx.Pick(r, stringKinds), value: hx.Pick(r, blankish)}
 	}
+	return withFormula(r, lc)
 }
 
 // valuedBox is the bounding box of the cells that display a value.
@@ -323,7 +355,7 @@ func physical(r *hx.Rng, sheets []lsheet) writers.XWorkbook {
 			if lower {
 				ref = strings.ToLower(ref)
 			}
-			xc := writers.XCell{Ref: ref}
+			xc := writers.XCell{Ref: ref, F: lc.formula}
 			switch lc.kind {
 			case "shared":
 				xc.T, xc.HasV = "s", true
@@ -344,7 +376,7 @@ func physical(r *hx.Rng, sheets []lsheet) writers.XWorkbook {
 				v := lc.value
 				xc.Is = &v
 			case "str":
-				xc.T, xc.HasV, xc.V, xc.F = "str", true, lc.value, "CONCAT(A1,B1)"
+				xc.T, xc.HasV, xc.V = "str", true, lc.value
 			case "bool":
 				xc.T, xc.HasV = "b", true
 				if lc.value == "TRUE" {
@@ -359,11 +391,9 @@ func physical(r *hx.Rng, sheets []lsheet) writers.XWorkbook {
 				if r.Bool() {
 					xc.T = "n"
 				}
-				if r.Chance(1, 3) {
-					xc.F = "SUM(A1:A2)"
-				}
 			case "formula":
-				xc.F = "NOW()"
+				// <f> only, nothing cached; sometimes an empty <v/>
+				xc.HasV = r.Chance(1, 4)
 			}
 			byRow[pos[0]+1] = append(byRow[pos[0]+1], xc)
 		}
@@ -537,6 +567,11 @@ func RunWorkbook(c *hx.Ctx, idx int, keep bool) {
 		if len(sh.stale) > 0 {
 			c.Count("sheet:stored-values-under-merge")
 		}
+		for _, p := range sortedPos(sh.cells) {
+			if lc := sh.cells[p]; lc.formula != "" {
+				c.Count("cell:formula-cached-" + lc.kind)
+			}
+		}
 		var tbl *model.Table
 		if doc != nil && si < len(doc.Pages) {
 			for _, el := range doc.Pages[si].Elements {
@@ -675,7 +710,7 @@ func mdTable(md string) [][]string {
 func init() { hx.Register("C17", Run, Replay) }
 
 func Run(c *hx.Ctx) {
-	c.Rep.Rule = "codec: every index in a bounded range + random big indices + malformed refs; workbooks: random logical sheets (sparse cells, 8 cell kinds incl. white-space-only values, merges whose covered cells are absent or still store a value, in a third of the sheets content moved off A1 plus 1-2 slight-valued cells - white space, 0, FALSE, one character - strictly outside the box of all other valued cells; shuffled rows/cells/members) rendered by the harness's XLSX writer; non-trivial = at least one non-empty cell; distinct by canonical workbook"
+	c.Rep.Rule = "codec: every index in a bounded range + random big indices + malformed refs; workbooks: random logical sheets (sparse cells, 8 stored kinds incl. white-space-only values, each of them either typed in or the cached result of a formula (<f> beside any t: boolean, error, number, shared/rich/inline/str string, or nothing cached), merges whose covered cells are absent or still store a value, in a third of the sheets content moved off A1 plus 1-2 slight-valued cells - white space, 0, FALSE, one character - strictly outside the box of all other valued cells; shuffled rows/cells/members) rendered by the harness's XLSX writer; non-trivial = at least one non-empty cell; distinct by canonical workbook"
 	codec(c)
 	n := c.N(250, 4000)
 	for i := 0; i < n; i++ {
